@@ -174,6 +174,10 @@ def tx_config(kind, lens, stalls, part):
     limit = len(total) + stalls + 2
 
     def run(ch):
+        with core.watchdog(20):
+            return run1(ch)
+
+    def run1(ch):
         fn = net.FakeNet(chooser=ch)
         t, sock, wl, addr = make(kind, fn, 8096)
         sock.menu = free if stalls else tight
@@ -250,6 +254,10 @@ def rx_config(kind, nbytes, bs, once, stalls, part):
     limit = 2 * nbytes + stalls + 3
 
     def run(ch):
+        with core.watchdog(20):
+            return run1(ch)
+
+    def run1(ch):
         fn = net.FakeNet(chooser=ch)
         t, sock, wl, addr = make(kind, fn, bs)
         sock.feed(stream)
@@ -330,13 +338,12 @@ def configs(tier):
 def work(cfg):
     init()
     p = core.Part()
-    with core.watchdog(600):
-        if cfg[0] == "tx":
-            _, kind, lens, stalls = cfg
-            n = tx_config(kind, lens, stalls, p)
-        else:
-            _, kind, nbytes, bs, once, stalls = cfg
-            n = rx_config(kind, nbytes, bs, once, stalls, p)
+    if cfg[0] == "tx":
+        _, kind, lens, stalls = cfg
+        n = tx_config(kind, lens, stalls, p)
+    else:
+        _, kind, nbytes, bs, once, stalls = cfg
+        n = rx_config(kind, nbytes, bs, once, stalls, p)
     p.notes["%s executions" % cfg[0]] += n
     p.notes["configs"] += 1
     if n > 1 and cfg[1] in ("Client", "IncomerTls") and cfg[2] in ((2, 1), 3):
